@@ -319,7 +319,7 @@ class read_bpm_line:
             and d["sample_set"] == ss
             and d["sample_set_index"] == si
             and d["volume"] == vol
-            and d["kiai"] == (effects != 0)
+            and d["kiai"] == (effects % 2 == 1)
         )
 
     def ensures_classified_as_tempo_point(t, beat_length, meter, ss, si, vol, effects, result):
@@ -350,7 +350,7 @@ class read_sv_line:
             and d["sample_set"] == ss
             and d["sample_set_index"] == si
             and d["volume"] == vol
-            and d["kiai"] == (effects != 0)
+            and d["kiai"] == (effects % 2 == 1)
         )
 
     def ensures_classified_as_sv(t, beat_length, meter, ss, si, vol, effects, result):
